@@ -61,7 +61,7 @@ def float_coords(contour):
 
 # ------------------------------------------------------------------ generators
 ALPH = "abcdefghijklmnopqrstuvwxyzABCDEFGHIJKLMNOPQRSTUVWXYZ0123456789 _-.,:/()[]%$\\^{}\"'#+*=<>|~&!?@"
-UNI = "äöüéèµ°²Ωσλ€"
+UNI = "äöüéèµ°²Ωσλ€ßÅ℃√∞≤日本\U0001F30A\u0301\u00a0\t"   # incl. CJK, a non-BMP symbol, a combining accent, NBSP, TAB
 
 
 def rand_word(rng, lo=0, hi=14, allow_semicolon=False):
@@ -223,6 +223,8 @@ def run_save(vc, case, k):
     for root, _, files in os.walk(d):
         before |= {os.path.relpath(os.path.join(root, f), d) for f in files}
     cont = case.get("contour") or _Contour(case["coords"], case.get("object_cells", False))
+    if case.get("ints"):
+        cont.coordinates = cont.coordinates.astype(np.int64)
     try:
         vc.save_contour_coordinates(cont, os.path.join(d, rel), case["semantics"])
     except Exception as e:  # noqa
@@ -235,6 +237,10 @@ def run_save(vc, case, k):
     if len(new) == 1:
         with open(os.path.join(d, new[0]), "rb") as f:
             res["bytes"] = f.read()
+        try:     # write -> read round trip with numpy's own reader
+            res["loadtxt"] = np.loadtxt(os.path.join(d, new[0]), delimiter=";", skiprows=1, ndmin=2, encoding="utf-8")
+        except Exception as e:  # noqa
+            res["loadtxt"] = "loadtxt raises %s" % type(e).__name__
     shutil.rmtree(d, ignore_errors=True)
     return res
 
@@ -266,6 +272,12 @@ def oracle_save(case, res):
         return dict(base, clause="lines"), "%d lines for %d contour points (expected 1 header + one per point)" % (len(lines), n)
     if lines[0] != header:
         return dict(base, clause="header"), "header %r, expected %r" % (lines[0], header)
+    if res.get("loadtxt") is not None:
+        back = res["loadtxt"]
+        want6 = np.array([[float("%1.6f" % v) for v in row] for row in coords], dtype=float).reshape(n, n_dim)
+        if isinstance(back, str) or back.shape != want6.shape or not np.array_equal(back, want6, equal_nan=True):
+            return dict(base, clause="roundtrip"), "np.loadtxt of the written file does not give back the coordinates rounded to 6 decimals (%s)" % (
+                back if isinstance(back, str) else "shape %r" % (back.shape,))
     for i in range(n):
         f = lines[1 + i].split(";")
         if len(f) != n_dim:
@@ -299,6 +311,16 @@ def run_plot(vp, vu, plt, case):
     dc = case["dc"]
     arg = None if dc == "none" else (True if dc == "true" else np.array(case["dc_array"], dtype=float))
     sample = None if case["sample"] is None else np.array(case["sample"], dtype=float)
+    if sample is not None and case.get("sample_type") == "list":
+        sample = sample.tolist()                      # array-like, as the docstring allows
+    elif sample is not None and case.get("sample_type") == "dataframe":
+        import pandas as pd
+        sample = pd.DataFrame(sample, columns=["a", "b"])
+    if case.get("ints"):                             # whole numbers held in integer arrays
+        cont = _Contour(case["coords"])
+        cont.coordinates = cont.coordinates.astype(np.int64)
+        if arg is not None and arg is not True:
+            arg = arg.astype(np.int64)
     ax_in = None
     if case["own_ax"]:
         _, ax_in = plt.subplots()
@@ -499,31 +521,55 @@ def coq_read(case, res):
 
 
 # ------------------------------------------------------------------ the other plot functions (oracle only)
-def check_other_plots(ctx, virocon, vp, plt, rng):
-    """returns list of (signature, message); counts evaluations"""
-    out = []
-    from harness.c17 import random_model
+def hist_matches(ax, data):
+    """the stepfilled histogram drawn in `ax` is the density histogram (Doane bins) of `data`"""
+    if not ax.patches:
+        return False
+    xy = np.asarray(ax.patches[0].get_xy(), dtype=float)
+    h, edges = np.histogram(np.asarray(data, dtype=float), bins="doane", density=True)
+    ys = np.unique(np.round(xy[:, 1], 12))
+    want = np.unique(np.round(np.r_[h, 0.0], 12))
+    return len(ys) == len(want) and np.allclose(ys, want, rtol=1e-10, atol=1e-12) and \
+        np.isclose(xy[:, 0].min(), edges[0]) and np.isclose(xy[:, 0].max(), edges[-1])
+
+
+def fitted_predefined_models(virocon, rng, which):
+    """(name, fitted GlobalHierarchicalModel, data frame used, semantics) for predefined models on shipped datasets"""
+    import pandas as pd
+    from virocon import variable_transform
+    R = os.path.join(vlib.REPO, "datasets")
+
+    def data(name):
+        d = virocon.read_ec_benchmark_dataset(os.path.join(R, name))
+        lo = rng.randrange(0, max(1, len(d) // 5))      # a random contiguous part, so that runs differ
+        return d.iloc[lo:]
+
+    def hs_s(d):
+        hs, tz = d.iloc[:, 0], d.iloc[:, 1]
+        _, st = variable_transform.hs_tz_to_hs_s(hs, tz)
+        st.name = "steepness"
+        return pd.concat([hs, st], axis=1)
+
+    specs = {"DNVGL_Hs_Tz": (virocon.get_DNVGL_Hs_Tz, lambda: data("ec-benchmark_dataset_A_1year.txt")),
+             "OMAE2020_Hs_Tz": (virocon.get_OMAE2020_Hs_Tz, lambda: data("ec-benchmark_dataset_%s_1year.txt" % rng.choice("ABC"))),
+             "OMAE2020_V_Hs": (virocon.get_OMAE2020_V_Hs, lambda: data("ec-benchmark_dataset_D_1year.txt")),
+             "DNVGL_Hs_U": (virocon.get_DNVGL_Hs_U, lambda: data("ec-benchmark_dataset_D_1year.txt").iloc[:, [1, 0]]),
+             "Windmeier_EW_Hs_S": (virocon.get_Windmeier_EW_Hs_S, lambda: hs_s(data("ec-benchmark_dataset_C_1year.txt"))),
+             "Nonzero_EW_Hs_S": (virocon.get_Nonzero_EW_Hs_S, lambda: hs_s(data("ec-benchmark_dataset_A_1year.txt")))}
+    for name in which:
+        getter, mk = specs[name]
+        r = getter()
+        d = mk()
+        m = virocon.GlobalHierarchicalModel(r[0])
+        m.fit(d, r[1])
+        yield name, m, d, r[2]
+
+
+PREDEFINED = ["DNVGL_Hs_Tz", "OMAE2020_Hs_Tz", "OMAE2020_V_Hs", "DNVGL_Hs_U", "Windmeier_EW_Hs_S", "Nonzero_EW_Hs_S"]
+
+
+def check_fitted(ctx, vp, plt, rng, name, model, data, sem, out):
     n_eval = 0
-    # ---- unfitted random models: dependence functions drawn over linspace(0, 10)
-    for k in range(ctx.n(3, 20)):
-        m = random_model(rng)
-        axes = vp.plot_dependence_functions(m)
-        dist = m.distributions[1]
-        for ax, (par, dep) in zip(axes, dist.conditional_parameters.items()):
-            xy = np.asarray(ax.lines[0].get_xydata(), dtype=float)
-            n_eval += 1
-            if not (np.array_equal(xy[:, 0], np.linspace(0, 10)) and np.array_equal(xy[:, 1], np.asarray(dep(xy[:, 0]), dtype=float))):
-                out.append(({"function": "plot_dependence_functions", "clause": "curve"}, "dependence function %r is not drawn as (x, f(x))" % par))
-            if len(ax.collections) != 0:
-                out.append(({"function": "plot_dependence_functions", "clause": "estimates"}, "estimates drawn for a model that was never fitted"))
-        plt.close("all")
-    # ---- a fitted model (shipped dataset, random contiguous part of it so that runs differ)
-    data = virocon.read_ec_benchmark_dataset(os.path.join(vlib.REPO, "datasets", "ec-benchmark_dataset_D_1year.txt"))
-    lo = rng.randrange(0, max(1, len(data) // 5))
-    data = data.iloc[lo:]
-    dd, fd, sem = virocon.get_OMAE2020_V_Hs()
-    model = virocon.GlobalHierarchicalModel(dd)
-    model.fit(data, fd)
     for swap_sem in (None, sem):
         axes = vp.plot_dependence_functions(model, swap_sem)
         dist = model.distributions[1]
@@ -532,7 +578,7 @@ def check_other_plots(ctx, virocon, vp, plt, rng):
             xy = np.asarray(ax.lines[0].get_xydata(), dtype=float)
             n_eval += 1
             if not (np.array_equal(xy[:, 0], np.linspace(0, max(cv))) and np.array_equal(xy[:, 1], np.asarray(dep(xy[:, 0]), dtype=float))):
-                out.append(({"function": "plot_dependence_functions", "clause": "curve"}, "fitted dependence function %r is not drawn as (x, f(x)) over [0, max conditioning value]" % par))
+                out.append(({"function": "plot_dependence_functions", "clause": "curve", "model": name}, "fitted dependence function %r is not drawn as (x, f(x)) over [0, max conditioning value]" % par))
             est = np.array([p[par] for p in dist.parameters_per_interval], dtype=float)
             offs = [np.asarray(np.ma.filled(c.get_offsets(), np.nan), dtype=float) for c in ax.collections]
             if len(offs) != 1 or not _same(offs[0], np.c_[cv, est]):
@@ -551,6 +597,8 @@ def check_other_plots(ctx, virocon, vp, plt, rng):
                 out.append(({"function": "plot_histograms_of_interval_distributions", "clause": "pdf"}, "marginal pdf curve is not (x, pdf(x)) over the data range"))
         elif len(ax0.lines) != 0:
             out.append(({"function": "plot_histograms_of_interval_distributions", "clause": "pdf"}, "pdf drawn although plot_pdf=False"))
+        if not hist_matches(ax0, d0):
+            out.append(({"function": "plot_histograms_of_interval_distributions", "clause": "histogram"}, "%s: the marginal histogram is not the density histogram of the first column" % name))
         cd = model.distributions[1]
         axs = axes_list[1]
         for i, dist_i in enumerate(cd.distributions_per_interval):
@@ -561,6 +609,9 @@ def check_other_plots(ctx, virocon, vp, plt, rng):
                 if not (np.array_equal(xy[:, 0], np.linspace(di.min(), di.max())) and np.array_equal(xy[:, 1], dist_i.pdf(xy[:, 0]))):
                     out.append(({"function": "plot_histograms_of_interval_distributions", "clause": "pdf", "interval": i},
                                 "pdf curve of interval %d is not that interval distribution's pdf over that interval's data range" % i))
+            if not hist_matches(axs[i], di):
+                out.append(({"function": "plot_histograms_of_interval_distributions", "clause": "histogram", "interval": i},
+                            "%s: the histogram of interval %d is not the density histogram of that interval's data" % (name, i)))
             if "n=%d" % len(di) not in axs[i].get_title():
                 out.append(({"function": "plot_histograms_of_interval_distributions", "clause": "title"}, "interval %d title %r does not carry n=%d" % (i, axs[i].get_title(), len(di))))
         plt.close("all")
@@ -576,14 +627,21 @@ def check_other_plots(ctx, virocon, vp, plt, rng):
         ax.contour = spy
         sub = sample[:: max(1, len(sample) // 400)]
         ng = rng.choice([15, 24, 40])
-        limits = None if rng.random() < 0.5 else [(0.0, rng.uniform(25, 40)), (0.0, rng.uniform(10, 16))]
-        vp.plot_2D_isodensity(model, sub, sem, swap_axis=swap, limits=limits, levels=[1e-4, 1e-3, 1e-2], ax=ax, n_grid_steps=ng)
+        limits = None if rng.random() < 0.5 else [(0.0, rng.uniform(1.1, 1.5) * float(sample[:, 0].max())), (0.0, rng.uniform(1.1, 1.5) * float(sample[:, 1].max()))]
+        levels = None if rng.random() < 0.4 else [1e-4, 1e-3, 1e-2]
+        try:
+            vp.plot_2D_isodensity(model, sub, sem, swap_axis=swap, limits=limits, levels=levels, ax=ax, n_grid_steps=ng)
+        except Exception as e:  # noqa  (level selection / drawing is matplotlib's business; the grid was recorded before)
+            d = ctx.notes.setdefault("isodensity_calls_that_raised_after_the_grid_was_computed", {})
+            d["%s/levels=%s/%s" % (name, "None" if levels is None else "list", type(e).__name__)] = 1
+            if "XYZ" not in rec:
+                raise
         n_eval += 1
         X, Y, Z = rec["XYZ"]
         pts = np.c_[Y.ravel(), X.ravel()] if swap else np.c_[X.ravel(), Y.ravel()]
-        if not np.array_equal(Z.ravel(), model.pdf(pts)):
+        if not np.array_equal(Z.ravel(), model.pdf(pts), equal_nan=True):
             out.append(({"function": "plot_2D_isodensity", "clause": "density", "swap": swap}, "the grid values handed to contour() are not model.pdf at the plotted positions (swap_axis=%r)" % swap))
-        offs = np.asarray(np.ma.filled(ax.collections[0].get_offsets(), np.nan), dtype=float)
+        offs = np.asarray(np.ma.filled(ax.collections[0].get_offsets(), np.nan), dtype=float) if ax.collections else np.zeros((0, 2))
         want = np.c_[sub[:, 1], sub[:, 0]] if swap else sub[:, :2]
         if not _same(offs, want):
             out.append(({"function": "plot_2D_isodensity", "clause": "scatter", "swap": swap}, "sample scatter is not the sample (swap_axis=%r)" % swap))
@@ -611,6 +669,32 @@ def check_other_plots(ctx, virocon, vp, plt, rng):
         if not theo or not any(np.array_equal(xy[:, 0], t) for t in theo):
             out.append(({"function": "plot_marginal_quantiles", "clause": "theoretical-quantiles", "dim": dim}, "abscissae are not the model's marginal_icdf values of dimension %d" % dim))
     plt.close("all")
+    return n_eval
+
+
+def check_other_plots(ctx, virocon, vp, plt, rng):
+    """returns list of (signature, message); counts evaluations"""
+    out = []
+    from harness.c17 import random_model
+    n_eval = 0
+    # ---- unfitted random models: dependence functions drawn over linspace(0, 10)
+    for k in range(ctx.n(3, 20)):
+        m = random_model(rng)
+        axes = vp.plot_dependence_functions(m)
+        dist = m.distributions[1]
+        for ax, (par, dep) in zip(axes, dist.conditional_parameters.items()):
+            xy = np.asarray(ax.lines[0].get_xydata(), dtype=float)
+            n_eval += 1
+            if not (np.array_equal(xy[:, 0], np.linspace(0, 10)) and np.array_equal(xy[:, 1], np.asarray(dep(xy[:, 0]), dtype=float))):
+                out.append(({"function": "plot_dependence_functions", "clause": "curve"}, "dependence function %r is not drawn as (x, f(x))" % par))
+            if len(ax.collections) != 0:
+                out.append(({"function": "plot_dependence_functions", "clause": "estimates"}, "estimates drawn for a model that was never fitted"))
+        plt.close("all")
+    # ---- predefined models fitted to the shipped datasets (random contiguous parts of them)
+    which = PREDEFINED if not ctx.quick() else [PREDEFINED[(ctx.seed + t) % 6] for t in (0, 2, 3)] + [rng.choice(PREDEFINED)]
+    for name, model, data, sem in fitted_predefined_models(virocon, rng, list(dict.fromkeys(which))):
+        n_eval += check_fitted(ctx, vp, plt, rng, name, model, data, sem, out)
+        ctx.notes.setdefault("predefined_models_plotted", []).append(name)
     return out, n_eval
 
 
@@ -680,6 +764,9 @@ def run(ctx):
         n_dim = rng.choice([2, 2, 2, 3, 3, 1, 4])
         save_cases.append({"function": "save_contour_coordinates", "kind": "synthetic", "coords": rand_coords(rng, nprng, n_dim),
                            "semantics": rand_semantics(rng, n_dim), "path": rand_path(rng)})
+        if rng.random() < 0.1:
+            save_cases[-1]["ints"] = True
+            save_cases[-1]["coords"] = np.round(save_cases[-1]["coords"]) + 0.0
     for kind, m, c in reals:
         save_cases.append({"function": "save_contour_coordinates", "kind": kind, "coords": float_coords(c), "contour": c,
                            "object_cells": c.coordinates.dtype == object, "semantics": rand_semantics(rng, 2), "path": rand_path(rng)})
@@ -715,6 +802,12 @@ def run(ctx):
             case["dc_array"] = nprng.uniform(0, 20, (rng.choice([1, 2, 3, 10]), 2))
         if dc == "true" and len(coords) < 3:
             case["dc"] = "none"
+        case["sample_type"] = rng.choice(["ndarray", "ndarray", "list", "dataframe"])
+        if rng.random() < 0.12:
+            case["ints"] = True
+            case["coords"] = np.round(np.asarray(coords) * (1 if np.abs(coords).max() > 5 else 10)) + 0.0   # + 0.0: no negative zeros
+            if dc == "array":
+                case["dc_array"] = np.round(case["dc_array"]) + 0.0
         plot_cases.append(case)
     for kind, m, c in reals:
         for dc in ("true", "array", "none"):
@@ -742,23 +835,47 @@ def run(ctx):
         k = "read/rows=%d/cols=%d/sep=%r" % (c["n"], len(c["fmts"]), c["sep"])
         dist[k] = dist.get(k, 0) + 1
         ctx.count(("read", c["content"][:2000], c["n"]), c["n"] >= 2)
-    # a shipped file against an independent line-based parse (all rows, order, index)
-    shipped = "ec-benchmark_dataset_A_1year.txt" if ctx.quick() else "ec-benchmark_dataset_A.txt"
-    sp = os.path.join(vlib.REPO, "datasets", shipped)
+    # the shipped ec-benchmark files against an independent line-based parse (all rows, order, index, values)
+    ddir = os.path.join(vlib.REPO, "datasets")
+    names = sorted(f for f in os.listdir(ddir) if f.startswith("ec-benchmark_dataset_") and os.path.getsize(os.path.join(ddir, f)) > 0) \
+        if os.path.isdir(ddir) else []
+    if ctx.quick():
+        names = [f for f in names if "1year" in f]
     ship_v = None
-    if os.path.exists(sp):
+    ctx.notes["shipped_files_read"] = []
+    for shipped in names:
+        sp = os.path.join(ddir, shipped)
+        what = None
         try:
             df = vu.read_ec_benchmark_dataset(sp)
             with open(sp) as f:
                 raw = [l for l in f.read().split("\n") if l.strip()]
             body = [[x.strip() for x in l.split(";")] for l in raw[1:]]
-            ok = len(df) == len(body) and [t.strftime("%Y-%m-%d-%H") for t in df.index] == [b[0] for b in body] and \
-                np.array_equal(np.asarray(df.values, dtype=float), np.array([[float(x) for x in b[1:]] for b in body]))
-        except Exception:  # noqa
-            ok = False
+            hdr = [x.strip() for x in raw[0].split(";")]
+            if list(df.columns) != hdr[1:]:
+                what = "columns %r, header says %r" % (list(df.columns), hdr[1:])
+            elif len(df) != len(body):
+                what = "%d rows returned, the file has %d data rows" % (len(df), len(body))
+            elif [t.strftime("%Y-%m-%d-%H") for t in df.index] != [b[0] for b in body]:
+                what = "index differs from the time stamps of the file"
+            elif not np.array_equal(np.asarray(df.values, dtype=float), np.array([[float(x) for x in b[1:]] for b in body])):
+                what = "values differ from the file's fields"
+        except Exception as e:  # noqa
+            what = "raises %s" % type(e).__name__
         ctx.count(("shipped", shipped), True)
-        if not ok:
-            ship_v = ({"function": "read_ec_benchmark_dataset", "clause": "shipped-file"}, "%s: rows/index/values differ from the file's lines" % shipped)
+        ctx.notes["shipped_files_read"].append(shipped)
+        if what and ship_v is None:
+            ship_v = ({"function": "read_ec_benchmark_dataset", "clause": "shipped-file"}, "%s: %s" % (shipped, what))
+    # file_path=None is documented to read the example dataset A
+    pa = os.path.join(ddir, "ec-benchmark_dataset_A.txt")
+    if os.path.exists(pa) and os.path.getsize(pa) > 0 and ship_v is None:
+        try:
+            d0, dA = vu.read_ec_benchmark_dataset(), vu.read_ec_benchmark_dataset(pa)
+            if not (d0.equals(dA) and list(d0.columns) == list(dA.columns)):
+                ship_v = ({"function": "read_ec_benchmark_dataset", "clause": "default-path"}, "file_path=None does not return the example dataset A")
+        except Exception as e:  # noqa
+            ship_v = ({"function": "read_ec_benchmark_dataset", "clause": "default-path"}, "file_path=None raises %s" % type(e).__name__)
+        ctx.count(("shipped", "default"), True)
     ctx.notes["input_distribution"] = dist
     ctx.notes["unjudgeable"] = {"plot_cases_where_calculate_design_conditions_raises(C17)": sum(1 for r in plot_res if "skip" in r)}
 
